@@ -8,6 +8,7 @@ import (
 	"path/filepath"
 	"sort"
 	"strings"
+	"time"
 
 	"filippo.io/edwards25519/field"
 	"verif/harness/alpha"
@@ -68,9 +69,19 @@ type c20Transcript struct {
 	Class string `json:"class"`
 }
 
+var c20Deadline time.Time
+
 func c20RunChild(bin, prop, tags string, digestFile string) (exit int, out string) {
-	cmd := exec.Command(bin, "-prop", prop, "-tier", "quick", "-digest", digestFile, "-report-as", "C20", "-build-tags", tags, "-no-evidence",
-		"-verif", VerifDir, "-out", core.OutDir)
+	args := []string{"-prop", prop, "-tier", "quick", "-digest", digestFile, "-report-as", "C20", "-build-tags", tags, "-no-evidence",
+		"-verif", VerifDir, "-out", core.OutDir}
+	if !c20Deadline.IsZero() {
+		rem := time.Until(c20Deadline)
+		if rem < time.Second {
+			rem = time.Second
+		}
+		args = append(args, "-deadline", rem.String())
+	}
+	cmd := exec.Command(bin, args...)
 	cmd.Env = append(os.Environ(), "VERIF_SHARD=")
 	if c20Smoke {
 		cmd.Env = append(cmd.Env, "VERIF_SMOKE=1")
@@ -166,6 +177,7 @@ func init() {
 }
 
 func runC20(ctx *core.Ctx) {
+	c20Deadline = ctx.Deadline
 	ctx.Rule("(1) same build, two routines: dispatched feMul/feSquare vs the portable feMulGeneric/feSquareGeneric on all pairs of the corner lattice L(K4) of the closed box (1024^2 pairs; quick L(K3)^2) and L(K7) for squaring: both equal math/big, both within the Multiply representation bound (limb equality is reported, not required); (2) two builds: the quick enumerations of C01,C02,C04-C10,C13,C16,C17 are run by a binary built from the same tree with -tags purego and by the default binary; each must be violation-free against math/big and the order-independent digests of all value-level observations must agree; (3) dispatch is read from the binaries (go tool nm/objdump): the default build must contain two assembly routines of package field with the multiply/square MULQ counts, the purego build no assembly (otherwise the run is marked not exhaustive). distinct_nontrivial = distinct products in (1)")
 	ctx.Assume("math/big is correct", "the purego binary and the default binary are built from the same working tree by ./check",
 		"limb vectors outside the closed box are outside the representation invariant and are not compared")
